@@ -85,6 +85,10 @@ type BlockRec struct {
 	Height int64
 	Time   time.Time
 	Txs    [][]byte
+	// MinDeposit != 0: a governance parameter change (deployment minimum deposit) takes effect at the start
+	// of this block.  The vote itself is not simulated; the state change is the one the parameter-change
+	// proposal handler makes (Subspace.Update), so it belongs to the block like its transactions do.
+	MinDeposit int64 `json:",omitempty"`
 }
 
 var encCfg = app.MakeEncodingConfig()
@@ -338,8 +342,28 @@ func (w *World) BeginBlock(dt time.Duration) {
 }
 
 func (w *World) beginOn(rep *Replica, b *BlockRec) {
-	rep.App.BeginBlock(abci.RequestBeginBlock{Header: tmproto.Header{ChainID: ChainID, Height: b.Height, Time: b.Time}})
+	hdr := tmproto.Header{ChainID: ChainID, Height: b.Height, Time: b.Time}
+	rep.App.BeginBlock(abci.RequestBeginBlock{Header: hdr})
 	rep.InBlock = true
+	if b.MinDeposit != 0 {
+		val := encCfg.Amino.MustMarshalJSON(sdk.NewInt64Coin(Denom, b.MinDeposit))
+		if err := rep.App.GetSubspace(dtypes.ModuleName).Update(rep.App.NewContext(false, hdr), []byte("DeploymentMinDeposit"), val); err != nil {
+			panic("harness: parameter change refused: " + err.Error())
+		}
+	}
+}
+
+// BeginBlockWithMinDeposit: as BeginBlock; an executed parameter-change proposal sets the deployment
+// minimum deposit at the start of the block.
+func (w *World) BeginBlockWithMinDeposit(dt time.Duration, min int64) {
+	w.Height++
+	w.Time = w.Time.Add(dt)
+	w.curBlock = &BlockRec{Height: w.Height, Time: w.Time, MinDeposit: min}
+	for _, rep := range w.Reps {
+		w.beginOn(rep, w.curBlock)
+	}
+	w.Knobs.DeploymentMinDeposit = min
+	w.R.SimTime++
 }
 
 // Deliver hands the tx to every live replica; results of replica 0 are returned, all results are
